@@ -260,3 +260,72 @@ func H_catch_order() {
 	symx.Assert(len(got) == 2 && got[0] == want && got[1] == 9, "first matching catch clause in source order handles the throwable")
 	symx.Reach("end")
 }
+
+// H_rethrow: a caught throwable that is thrown again (`throw $e;`) is still the same object: the
+// enclosing try matches it by its original class and sees its original message.
+func H_rethrow() {
+	names := []string{"E1", "E2", "E3", "Exception"}
+	msgs := []string{"a", "b", "c", "d"}
+	x := symx.Choose("thrown", 4)
+	inner := symx.Choose("inner", 5) // inner clause type: 0..3 as names, 4 Throwable
+	innerT := append(append([]string{}, names...), "Throwable")[inner]
+	src := classes + `
+try {
+  try { throw new ` + names[x] + `("` + msgs[x] + `"); }
+  catch (` + innerT + ` $e) { mark(1); throw $e; }
+  finally { mark(2); }
+}
+catch (E2 $o) { mark(12); emit($o->getMessage()); }
+catch (E1 $o) { mark(11); emit($o->getMessage()); }
+catch (E3 $o) { mark(13); emit($o->getMessage()); }
+catch (Exception $o) { mark(14); emit($o->getMessage()); }
+mark(9);`
+	s := sx.Compile(src)
+	symx.Assert(s.Err == nil, "rethrow template parses")
+	if s.Err != nil {
+		return
+	}
+	_, ctl := s.Run()
+	symx.Assert(ctl == nil, "rethrow template runs")
+	if ctl != nil {
+		return
+	}
+	// does the inner clause match?  E2 is an E1; everything is an Exception / Throwable
+	isA := func(cls int, t string) bool {
+		switch t {
+		case "Throwable", "Exception":
+			return true
+		case "E1":
+			return cls == 0 || cls == 1
+		case "E2":
+			return cls == 1
+		case "E3":
+			return cls == 2
+		}
+		return false
+	}
+	var want []sx.Obs
+	if isA(x, innerT) {
+		want = append(want, sx.Obs{Kind: 'M', I: 1})
+	}
+	want = append(want, sx.Obs{Kind: 'M', I: 2})
+	outer := []struct {
+		t string
+		m int
+	}{{"E2", 12}, {"E1", 11}, {"E3", 13}, {"Exception", 14}}
+	for _, oc := range outer {
+		if isA(x, oc.t) {
+			want = append(want, sx.Obs{Kind: 'M', I: oc.m}, sx.Obs{Kind: 's', S: msgs[x]})
+			break
+		}
+	}
+	want = append(want, sx.Obs{Kind: 'M', I: 9})
+	symx.Assert(len(sx.Log) == len(want), "rethrow: trace length")
+	if len(sx.Log) != len(want) {
+		return
+	}
+	for i := range want {
+		symx.Assert(sx.Log[i].Kind == want[i].Kind && sx.Log[i].I == want[i].I && sx.Log[i].S == want[i].S, "rethrow: the rethrown object keeps its class and message")
+	}
+	symx.Reach("end")
+}
